@@ -71,6 +71,27 @@ def classify(cfg, obs):
   return usable, n_timeouts
 
 
+_SUBMITTED = []
+
+
+def _install_submit_counter():
+  """Observation only: notes the address of every worker a generator task is
+  handed to (CourierClient.async_iterate is called once per submission and only
+  creates the async generator).  The wrapper lives outside the library's
+  modules, so it is not a pre-emption point and changes no schedule."""
+  from ml_metrics._src.utils import courier_utils
+  orig = courier_utils.CourierClient.async_iterate
+  if getattr(orig, '_verif_counted', False):
+    return
+
+  def counted_async_iterate(self, task, **kw):
+    _SUBMITTED.append(self.address)
+    return orig(self, task, **kw)
+
+  counted_async_iterate._verif_counted = True
+  courier_utils.CourierClient.async_iterate = counted_async_iterate
+
+
 class _Base(common.Family):
   pct_ok = False   # timed oracles: see harness.run_random
   prop = 'C06'
@@ -379,6 +400,10 @@ class ShardsFamily(_Base):
            'jumped': False}
     self._jumper(cfg, sim, obs)
     rq = queue.SimpleQueue()
+    # every generator task handed to a worker, whether or not its coroutine
+    # got as far as sending init_generator
+    _install_submit_counter()
+    _SUBMITTED.clear()
     try:
       if cfg['app_error'] is None:
         gen = orchestrate.sharded_pipelines_as_iterator(
@@ -402,6 +427,7 @@ class ShardsFamily(_Base):
     time.sleep(1.0)
     while not rq.empty():
       results.append(rq.get())
+    obs['submitted'] = list(_SUBMITTED)
     obs['n_results'] = len(results)
     obs['res'] = (pipes.norm_result(results[0].agg_result) if results else None)
     obs['acquired'] = [w.address for w in pool.acquired_workers]
@@ -447,8 +473,9 @@ class ShardsFamily(_Base):
     TimeoutError value (the server refusing or stopping a generator); or when
     its worker can have been judged not alive: a configured clock jump, or a
     gap of more than half the heartbeat threshold without a successfully
-    answered call sent to that worker (covers lost heartbeats, departures and
-    the simulator's own busy-poll clock jumps)."""
+    answered call sent to that worker (covers lost heartbeats and the
+    simulator's own busy-poll clock jumps), or the worker left at some point
+    (death, restart, or a goodbye, which unregisters it at once)."""
     tasks = {}
     order = []
     for c in obs.get('gen_calls') or ():
@@ -466,9 +493,19 @@ class ShardsFamily(_Base):
       ts = ts + [obs.get('t_end', float('inf'))]
       if not ts[:-1] or any(b - a > gap for a, b in zip(ts, ts[1:])):
         stale.add(addr)
+    # a worker that left (death, goodbye - unregistered at once - or restart)
+    for f in obs.get('fired') or ():
+      if str(f.get('kind', '')).startswith(('death', 'goodbye', 'restart')):
+        stale.add(f.get('addr'))
+    # A task given to a worker that stops looking alive before the task's
+    # coroutine has sent anything is charged without leaving a call in the log:
+    # every submission without an init_generator call counts as chargeable.
+    n_sub = len(obs.get('submitted') or ())
+    phantoms = max(0, n_sub - len(order))
     if obs.get('jumped'):
-      return len(order)
-    return sum(1 for t in order if t['bad'] or t['addr'] in stale)
+      return len(order) + phantoms
+    return (sum(1 for t in order if t['bad'] or t['addr'] in stale)
+            + phantoms)
 
   def check(self, cfg, out):
     dl = common.deadlock_violation(out)
